@@ -88,18 +88,30 @@ int main()
     if (nkeep < 6 || nkeep == nech) { st.hit("regenerated"); continue; }
     bool useSel = false; for (int i = 0; i < nech; i++) if (!sel[i]) useSel = true;
     st.hit(std::string("mode_") + (mode == 0 ? "selection" : mode == 1 ? "undefined_values" : mode == 2 ? "undefined_coordinate" : "mixture"));
+    // --- optional external drift: undefined at some of the samples that do not count (the value
+    // carried by a masked sample must be irrelevant), defined at all the others
+    int nfex = (mode != 2 && rng.coin(0.4)) ? 1 : 0;
+    if (nfex) order = 0;
+    std::vector<std::vector<double>> FA, FB, F0, F0B;
+    if (nfex)
+    {
+      FA.assign(1, std::vector<double>(nech)); FB.assign(1, {});
+      for (int i = 0; i < nech; i++) { FA[0][i] = rng.dyadic(-4, 4, 3); if (gone[i] && rng.coin(0.6)) FA[0][i] = TEST; }
+      st.hit("external_drift");
+    }
     std::vector<std::vector<double>> XB; std::vector<std::vector<double>> ZB(nvar);
-    for (int i = 0; i < nech; i++) if (!gone[i]) { XB.push_back(X[i]); for (int a = 0; a < nvar; a++) ZB[a].push_back(Z[a][i]); }
-    Db* dbA = makeDb(XA, ndim, ZA, {}, {}, useSel ? sel : std::vector<int>());
-    Db* dbB = makeDb(XB, ndim, ZB, {}, {}, {});
+    for (int i = 0; i < nech; i++) if (!gone[i]) { XB.push_back(X[i]); for (int a = 0; a < nvar; a++) ZB[a].push_back(Z[a][i]); if (nfex) FB[0].push_back(FA[0][i]); }
+    Db* dbA = makeDb(XA, ndim, ZA, {}, FA, useSel ? sel : std::vector<int>());
+    Db* dbB = makeDb(XB, ndim, ZB, {}, FB, {});
     // --- targets: some masked
     int ntarget = 5;
     auto X0 = genPoints(rng, ntarget, ndim, 8);
     for (auto& p : X0) for (int d = 0; d < ndim; d++) p[d] += 1. / (16 << d);
     std::vector<int> selT(ntarget, 1); for (int t = 1; t < ntarget; t++) if (rng.coin(0.3)) selT[t] = 0;
     std::vector<std::vector<double>> X0B; for (int t = 0; t < ntarget; t++) if (selT[t]) X0B.push_back(X0[t]);
+    if (nfex) { F0.assign(1, std::vector<double>(ntarget)); F0B.assign(1, {}); for (int t = 0; t < ntarget; t++) { F0[0][t] = rng.dyadic(-4, 4, 3); if (selT[t]) F0B[0].push_back(F0[0][t]); } }
     std::string mtext;
-    Model* model = genModel(rng, ndim, nvar, order, 0, mtext, st);
+    Model* model = genModel(rng, ndim, nvar, order, nfex, mtext, st);
     if (model == nullptr) { delete dbA; delete dbB; continue; }
     if (order < 0) { VectorDouble means(nvar); for (int a = 0; a < nvar; a++) means[a] = rng.dyadic(-3, 3, 2); model->setMeans(means); }
     double zs = 8.;
@@ -110,8 +122,8 @@ int main()
     for (int nb = 0; nb < 2; nb++) guarded(std::string("kriging_") + (nb ? "moving_" : "unique_") + tag, risky, st, [&]()
     {
       ANeigh* neigh = nb == 0 ? (ANeigh*)NeighUnique::create() : (ANeigh*)NeighMoving::create(false, 6, 1.e6);
-      Db* outA = makeDb(X0, ndim, {}, {}, {}, selT);
-      Db* outB = makeDb(X0B, ndim, {}, {}, {}, {});
+      Db* outA = makeDb(X0, ndim, {}, {}, F0, selT);
+      Db* outB = makeDb(X0B, ndim, {}, {}, F0B, {});
       int nA = outA->getColumnNumber(), nB = outB->getColumnNumber();
       bool okA = kriging(dbA, outA, model, neigh) == 0, okB = kriging(dbB, outB, model, neigh) == 0;
       if (okA && okB)
@@ -131,7 +143,7 @@ int main()
     if (order <= 0) guarded("xvalid_" + tag, risky, st, [&]()
     {
       ANeigh* neigh = NeighUnique::create();
-      Db* a2 = makeDb(XA, ndim, ZA, {}, {}, useSel ? sel : std::vector<int>()); Db* b2 = makeDb(XB, ndim, ZB, {}, {}, {});
+      Db* a2 = makeDb(XA, ndim, ZA, {}, FA, useSel ? sel : std::vector<int>()); Db* b2 = makeDb(XB, ndim, ZB, {}, FB, {});
       int nA = a2->getColumnNumber(), nB = b2->getColumnNumber();
       if (xvalid(a2, model, neigh, false, -1, -1, 0) == 0 && xvalid(b2, model, neigh, false, -1, -1, 0) == 0)
       {
@@ -187,10 +199,10 @@ int main()
 
     // ---- conditional simulation (same seed); in a child process when coordinates are undefined
     // (a crash there must not stop the other comparisons)
-    if (nvar == 1) guarded("simtub_cond_" + tag, risky, st, [&]()
+    if (nvar == 1 && nfex == 0) guarded("simtub_cond_" + tag, risky, st, [&]()
     {
       ANeigh* neigh = NeighUnique::create();
-      Db* outA = makeDb(X0, ndim, {}, {}, {}, selT); Db* outB = makeDb(X0B, ndim, {}, {}, {}, {});
+      Db* outA = makeDb(X0, ndim, {}, {}, F0, selT); Db* outB = makeDb(X0B, ndim, {}, {}, F0B, {});
       int nA = outA->getColumnNumber(), nB = outB->getColumnNumber();
       if (simtub(dbA, outA, model, neigh, 2, 12345, 20) == 0 && simtub(dbB, outB, model, neigh, 2, 12345, 20) == 0)
       {
